@@ -61,7 +61,7 @@ const c13Data = `{"@graph":[{"@id":"http://example.org/d#a","@type":"http://exam
 
 func C13(e *core.Env) {
 	res := e.Res
-	res.Rule = "cases = (string, position) with position in {profile name, validation name, message, value of an in / containsAll / containsSome list}; strings: every token of a 58-item alphabet (quotes, control characters other than newline and tab, DEL, no-break space, zero-width joiner, line separator, an emoji flag spelt with astral TAG characters, a plane-16 private-use character, backslash, percent, braces, backtick, dollar, newline, tab, non-ASCII BMP and astral, sprintf verbs, well-formed / malformed / repeated / absent placeholders, key names, YAML indicators, an injection attempt) alone and embedded, plus seeded concatenations of 2-6 tokens (260 quick / 4000 thorough); " +
+	res.Rule = "cases = (string, position) with position in {profile name, validation name, message, value of an in / containsAll / containsSome list}, plus 5 prefix namespaces holding percent escapes / formatting verbs / quotes behind a message placeholder; strings: every token of a 58-item alphabet (quotes, control characters other than newline and tab, DEL, no-break space, zero-width joiner, line separator, an emoji flag spelt with astral TAG characters, a plane-16 private-use character, backslash, percent, braces, backtick, dollar, newline, tab, non-ASCII BMP and astral, sprintf verbs, well-formed / malformed / repeated / absent placeholders, key names, YAML indicators, an injection attempt) alone and embedded, plus seeded concatenations of 2-6 tokens (260 quick / 4000 thorough); " +
 		"each must compile, and profileName / sourceShapeName / resultMessage in the report must equal the text the Coq model says must be shown (message: placeholders replaced by the node's values, null when absent, double quotes as single quotes); non-trivial = the string contains a character outside [A-Za-z0-9 ]; distinct by (string, position)"
 	strs := c13Strings(e)
 	nontrivial := func(s string) bool {
@@ -175,6 +175,32 @@ func C13(e *core.Env) {
 			continue
 		}
 		check("validation names / messages", fmt.Sprintf("batch %d..%d", start, end), p, names, msgs, "Batch")
+	}
+	// namespaces with characters that matter to string formatting (percent escapes, verbs, quotes): a placeholder of such a
+	// prefix is still replaced by the node's value
+	for ni, ns := range []string{"file:///C:/Users/me/My%20vocabularies/movie.yaml#", "http://example.org/n%s/v#", "http://example.org/100%25/", "http://example.org/q'uote#", "http://example.org/v%d%v#"} {
+		profile := "#%Validation Profile 1.0\nprofile: Namespaces\nprefixes:\n  mv: " + yq(ns) + "\nviolation:\n  - v\nvalidations:\n  v:\n    targetClass: mv.T\n    message: " + yq("Movie '{{mv.title}}' has {{ mv.count }} reviews, 100% sure") +
+			"\n    propertyConstraints:\n      mv.nope:\n        minCount: 1\n"
+		dj, _ := json.Marshal(map[string]any{"@graph": []any{map[string]any{"@id": "http://example.org/d#m", "@type": ns + "T", ns + "title": "Disaster Movie", ns + "count": 5}}})
+		out, err := pkg.Validate(profile, string(dj), false, nil)
+		replay := map[string]any{"position": "namespace of a placeholder's prefix", "namespace": ns, "profile": profile, "data": string(dj)}
+		res.Case(fmt.Sprintf("namespace|%d", ni), true)
+		res.Count("position=placeholder-namespace")
+		if err != nil {
+			replay["error"] = core.Trunc(err.Error(), 1200)
+			res.Violate("impl-violates-property", "a profile whose prefix namespace is "+fmt.Sprintf("%q", ns)+" does not validate: "+core.Trunc(err.Error(), 160), replay)
+			continue
+		}
+		rep, perr := ParseReport(out)
+		got := ""
+		if perr == nil && len(rep.Results) == 1 {
+			got = rep.Results[0].Message
+		}
+		want := "Movie 'Disaster Movie' has 5 reviews, 100% sure"
+		if got != want {
+			replay["expected_resultMessage"], replay["actual_resultMessage"] = want, got
+			res.Violate("impl-violates-property", "a placeholder whose prefix is bound to "+fmt.Sprintf("%q", ns)+" is not replaced by the node's value", replay)
+		}
 	}
 	// values of in / containsAll / containsSome lists: the text is data. For each string s a node holding exactly s must
 	// pass `in: [s]`, `containsAll: [s]`, `containsSome: [s]` and a node holding s~ must fail all three.
